@@ -1,4 +1,6 @@
 #![forbid(unsafe_code)]
+// verif hook H4: the warp route type overflows the default recursion limit once MIR inlining is on.
+#![cfg_attr(feature = "verif", recursion_limit = "512")]
 #![deny(
     clippy::panic,
     clippy::panic_in_result_fn,
